@@ -46,7 +46,12 @@ pub enum Op {
 }
 
 pub fn gen_k(rng: &mut Rng, rem: usize) -> usize {
-    match rng.below(9) {
+    match rng.below(10) {
+        // integer-width boundaries: an index that is narrowed (u32, i32, u16 ...) somewhere on the way wraps to a small value
+        9 => {
+            let base = *rng.pick(&[1usize << 32, 1 << 31, (1 << 32) - 1, 1 << 16, 1 << 63, usize::MAX - 1, 1 << 33, 1 << 48]);
+            base.wrapping_add(rng.usize_below(4)).wrapping_sub(rng.usize_below(2))
+        }
         0 => 0,
         1 => 1,
         2 => 2,
